@@ -18,16 +18,22 @@ fn rnd(s: &mut u64) -> u64 { *s = s.wrapping_mul(6364136223846793005).wrapping_a
 /// all other rows: heavy non-candidate at column 2 and a few +-1 / light non-candidates in a narrow span
 fn starved(case: u64) -> (usize, usize, Vec<(usize, usize, i64)>) {
     let mut s = case.wrapping_mul(0x9E3779B97F4A7C15) ^ 0xD1B54A32D192ED03;
-    let m = 5 + (rnd(&mut s) % 4) as usize;
-    let n = 7 + (rnd(&mut s) % 3) as usize;
+    let m = 6 + (rnd(&mut s) % 4) as usize;
+    let span = 2 + (rnd(&mut s) % 2) as usize;
+    let n = 3 + span + (rnd(&mut s) % 2) as usize;
     let mut e = vec![(0usize, 0usize, 2i64)];
     for j in 1..n { e.push((0, j, if rnd(&mut s) % 2 == 0 { 1 } else { -1 })) }
-    let span = 2 + (rnd(&mut s) % 3) as usize;
+    // rows i >= 1: heavy head at column 2, then entries in the shared span: +-1 (candidates) and 2 (light
+    // non-candidates), at least one candidate: mutually exclusive choices such as {x: 1, y: 2} / {x: 2, y: 1}
     for i in 1..m {
         e.push((i, 2, 1000));
-        let mut cols: Vec<usize> = (0..2 + rnd(&mut s) % 2).map(|_| 3 + (rnd(&mut s) as usize % span)).collect();
-        cols.sort(); cols.dedup();
-        for j in cols { let v = match rnd(&mut s) % 4 { 0 => 2, 1 => -1, _ => 1 }; e.push((i, j, v)) }
+        let mut have_cand = false;
+        let mut row = vec![];
+        for j in 3..3 + span {
+            match rnd(&mut s) % 4 { 0 => {} 1 => row.push((i, j, 2)), 2 => { row.push((i, j, 1)); have_cand = true } _ => { row.push((i, j, -1)); have_cand = true } }
+        }
+        if !have_cand { let j = 3 + (rnd(&mut s) as usize % span); row.retain(|x| x.1 != j); row.push((i, j, 1)) }
+        e.extend(row);
     }
     (m, n, e)
 }
